@@ -331,6 +331,142 @@ def rand_iter_cases(rng, n):
     return out
 
 
+def csize_of(text, suffix):
+    """size on disk of the file c06_impl writes for `text` (same deterministic compression calls)"""
+    import bz2
+    import gzip
+
+    raw = text.encode("utf8")
+    if suffix == ".gz":
+        return len(gzip.compress(raw, mtime=0))
+    if suffix == ".bz2":
+        return len(bz2.compress(raw))
+    return len(raw)
+
+
+def chunk_sizes_for(rng, text, suffix, k):
+    """chunk sizes around every boundary that matters: 1,2,3,7, the size on disk +-1, the text length +-1, beyond"""
+    L, cs = len(text), csize_of(text, suffix)
+    cand = {1, 2, 3, 7, 61, cs - 1, cs, cs + 1, L - 1, L, L + 1, 2 * L + 5, 1000000}
+    cand = sorted(x for x in cand if x >= 1)
+    must = [x for x in (cs - 1, cs, cs + 1, L - 1, L) if x >= 1]
+    pick = set(rng.sample(must, min(len(must), max(1, k // 2))))
+    while len(pick) < min(k, len(cand)):
+        pick.add(rng.choice(cand))
+    return sorted(pick)
+
+
+def long_text(rng):
+    """texts whose compressed size is smaller (repetitive) or larger (short / random) than the text"""
+    r = rng.random()
+    if r < 0.4:      # highly repetitive
+        unit = rng.choice(["ACGT", "AC-T", "a", "ab"]) * rng.choice([1, 3, 15])
+        t = "\n".join([unit] * rng.randint(3, 40))[: rng.choice([150, 300, 600])] + rng.choice(["\n", "", "\n\n"])
+    elif r < 0.7:    # random residues, medium length
+        L = rng.choice([120, 200, 400, 600])
+        t = "".join(rng.choice("ACGT" * 6 + "\n") for _ in range(L)) + rng.choice(["\n", ""])
+    elif r < 0.85:   # writer-like text
+        t = py_fasta_text(wf_recs(rng), rng.choice([2, 3, 60]), rng.choice(">%"))
+    else:            # short: compression grows it
+        t = "".join(rng.choice("ab\n") for _ in range(rng.randint(0, 30)))
+    return t
+
+
+def all_chunk_sizes(text, suffix):
+    L, cs = len(text), csize_of(text, suffix)
+    return sorted(x for x in {1, 3, 7, cs - 1, cs, cs + 1, (cs + L) // 2, L - 1, L, L + 1, 1000000} if x >= 1)
+
+
+def grid_iter_cases(rng):
+    """deterministic grid: {plain, .gz, .bz2} x {compression shrinks the text, grows it} x every boundary chunk size"""
+    out = []
+    texts = [
+        "\n".join(["ACGT" * 15] * 8) + "\n",                                  # repetitive, 488 chars
+        ("%s\n" % ("ab" * 3)) * 40,                                            # repetitive short lines, 280 chars
+        "".join(rng.choice("ACGT" * 6 + "\n") for _ in range(420)),            # random residues: still shrinks
+        "".join(rng.choice("ACGT" * 6 + "\n") for _ in range(200)) + "\n",
+        "".join(rng.choice("ab\n") for _ in range(25)),                        # short: grows
+        "ab\ncd\n",
+    ]
+    for t in texts:
+        for suffix in ("", ".gz", ".bz2"):
+            for n in all_chunk_sizes(t, suffix):
+                out.append(dict(kind="iter", n=n, text=t, suffix=suffix, block="file-grid"))
+    return out
+
+
+def compressed_iter_cases(rng, ntexts, per_text=4):
+    out = []
+    for _ in range(ntexts):
+        t = long_text(rng)
+        for suffix in rng.sample(["", ".gz", ".bz2"], rng.choice([2, 3])):
+            for n in chunk_sizes_for(rng, t, suffix, per_text):
+                out.append(dict(kind="iter", n=n, text=t, suffix=suffix, block="random-file"))
+    return out
+
+
+def stream_recs(rng, fmt, moltype, shrink):
+    nrec = 4 if shrink else rng.choice([1, 2])
+    L = rng.choice([120, 200]) if shrink else rng.choice([3, 6])
+    names, recs = set(), []
+    for i in range(nrec):
+        n = (rand_name(rng)[:7].strip() or "n").replace(" ", "_")
+        while n in names:
+            n = n[:6] + str(i)
+        names.add(n)
+        sq = (rng.choice(ALPHA[moltype]) * L) if shrink else rand_seq(rng, moltype, L)
+        recs.append([n, sq])
+    return recs
+
+
+def grid_stream_cases(rng):
+    """deterministic grid: {gde, phylip, paml} x {plain, .gz, .bz2} x {shrinks, grows} x chunk sizes placed relative to
+    the real size on disk and the decoded length (resolved by the runner after the real writer wrote the file)"""
+    out = []
+    for fmt in ("gde", "phylip", "paml"):
+        for suffix in ("", ".gz", ".bz2"):
+            for shrink in (True, False):
+                if suffix == "" and shrink:
+                    continue
+                recs = stream_recs(rng, fmt, "dna", shrink)
+                if shrink:
+                    specs = [3, ["disk", -1], ["disk", 0], ["disk", 1], ["mid"], ["len", -1], ["len", 1]]
+                else:
+                    specs = [2, ["len", -1], ["len", 0], ["len", 1]]
+                for n in specs:
+                    out.append(dict(kind="stream", fmt=fmt, suffix=suffix, n=n, recs=recs, w=rng.choice([10, 60, None]),
+                                    moltype="dna", block="file-grid"))
+    return out
+
+
+def stream_cases(rng, ncases):
+    """random: phylip / paml / gde written by the real writer into plain / .gz / .bz2 files and parsed through
+    parser(iter_splitlines(path, chunk_size=n)) with small explicit chunk sizes"""
+    out = []
+    for _ in range(ncases):
+        fmt = rng.choice(["gde", "phylip", "paml"])
+        moltype = rng.choice(["dna", "dna", "protein"])
+        recs = stream_recs(rng, fmt, moltype, rng.random() < 0.6)
+        w = rng.choice([7, 10, 60, None])
+        suffix = rng.choice(["", ".gz", ".gz", ".bz2", ".bz2"])
+        for n in [rng.choice([1, 2, 3, 7]), rng.choice([20, 45, 61, 90, 130]), rng.choice([["disk", 0], ["mid"], ["len", -1]])]:
+            out.append(dict(kind="stream", fmt=fmt, suffix=suffix, n=n, recs=recs, w=w, moltype=moltype,
+                            block="random-file"))
+    return out
+
+
+def big_cases(tier):
+    cs = [dict(kind="big", fmt="gde", suffix=".gz", nchar=2600000, seed=11, block="big")]
+    if tier != "quick":
+        k = 12
+        for fmt in ("gde", "phylip", "paml"):
+            for suffix in (".gz", ".bz2"):
+                if (fmt, suffix) != ("gde", ".gz"):
+                    cs.append(dict(kind="big", fmt=fmt, suffix=suffix, nchar=2600000, seed=k, block="big"))
+                    k += 1
+    return cs
+
+
 def exhaustive_iter(tier):
     """every text over {a, \\n} up to length 5 (6 in thorough) x every chunk size 1..len"""
     out = []
@@ -558,6 +694,10 @@ def build_model_cases(cases, impl, variant=0):
             mc.append((i, "split", f"CSplit {zstr(c['text'])}"))
         elif k == "iter":
             mc.append((i, "iter", f"CIter {zlit(c['n'])} {zstr(c['text'])}"))
+        elif k == "stream":
+            if "text" in r and modelable(r["text"]):
+                which = {"gde": 3, "phylip": 5, "paml": 6}[c["fmt"]]
+                mc.append((i, "stream", f"CStream {which} {zlit(r['n_used'])} {zstr(r['text'])}"))
     return mc
 
 
@@ -616,6 +756,63 @@ def check_round(rep, c, r, stats):
     return False
 
 
+def chunk_class(n, csize, dlen):
+    """where the chunk size lies relative to the size on disk and the decoded length"""
+    if n is None:
+        return "default-1e6" + ("<disk" if csize >= 1000000 else ">disk")
+    if n >= dlen:
+        return "n>=len"
+    if csize >= dlen:
+        return "n<len"
+    if n > csize:
+        return "disk<n<len"
+    return "n==disk" if n == csize else "n<disk"
+
+
+def coverage_matrix(cases, impl):
+    """(reader | compression | regime | chunk class) -> count, and the cells of the full grid never produced in this run.
+    reader: iter_splitlines itself; parser(fmt)+iter_splitlines per line-based format; load_seqs(fmt) = load_*_seqs
+    (LineBasedParser with the default chunk size 1e6; FASTA and JSON are read in one go and do not stream);
+    regime: compression makes the file on disk smaller than the decoded text ("shrinks") or not ("grows/equal")"""
+    counts = {}
+
+    def add(reader, suffix, regime, cls):
+        key = f"{reader}|{suffix or 'plain'}|{regime}|{cls}"
+        counts[key] = counts.get(key, 0) + 1
+
+    for c, r in zip(cases, impl):
+        k = c["kind"]
+        if not isinstance(r, dict):
+            continue
+        if k == "iter":
+            dl = len(c["text"].encode("utf8"))
+            cs = r.get("csize", dl)
+            add("iter_splitlines", c.get("suffix", ""), "shrinks" if cs < dl else "grows/equal", chunk_class(c["n"], cs, dl))
+        elif k == "stream" and "text" in r:
+            dl, cs = len(r["text"]), r["csize"]
+            regime = "shrinks" if cs < dl else "grows/equal"
+            add(f"parser({c['fmt']})+iter_splitlines", c["suffix"], regime, chunk_class(r["n_used"], cs, dl))
+            add(f"load_seqs({c['fmt']})", c["suffix"], regime, chunk_class(None, cs, dl))
+        elif k == "round" and "text" in r:
+            add(f"load_seqs({c['fmt']})", c["suffix"], "any", "default-1e6>disk")
+        elif k == "big" and "csize" in r:
+            add(f"load_seqs({c['fmt']})", c["suffix"], "shrinks", chunk_class(None, r["csize"], r["dsize"]))
+    grid = []
+    readers = ["iter_splitlines"] + [f"parser({f})+iter_splitlines" for f in ("gde", "phylip", "paml")]
+    for reader in readers:
+        for suffix in ("plain", ".gz", ".bz2"):
+            for cls in ("n<len", "n>=len"):
+                grid.append(f"{reader}|{suffix}|grows/equal|{cls}")
+            if suffix != "plain":
+                for cls in ("n<disk", "n==disk", "disk<n<len", "n>=len"):
+                    grid.append(f"{reader}|{suffix}|shrinks|{cls}")
+    for fmt in ("gde", "phylip", "paml"):
+        for suffix in (".gz", ".bz2"):
+            grid.append(f"load_seqs({fmt})|{suffix}|shrinks|default-1e6<disk")
+    never = sorted(g for g in grid if g not in counts)
+    return dict(sorted(counts.items())), never
+
+
 def run(tier: str, seed: int) -> int:
     rep = core.Report(PROP, tier, seed)
     rng = random.Random(seed * 7919 + 6)
@@ -643,6 +840,11 @@ def run(tier: str, seed: int) -> int:
     cases += rand_parse_cases(rng, 160 * mult)
     cases += exhaustive_iter(tier)
     cases += rand_iter_cases(rng, 50 * mult)
+    cases += grid_iter_cases(rng)
+    cases += grid_stream_cases(rng)
+    cases += compressed_iter_cases(rng, 8 * mult)
+    cases += stream_cases(rng, 8 * mult)
+    cases += big_cases(tier)
 
     impl = core.run_impl_sharded("c06_impl.py", cases)
     variant = bytes_split_variant()
@@ -715,6 +917,40 @@ def run(tier: str, seed: int) -> int:
                 m = from_val_recs(model[(i, "parse")])
                 if m is not None and m != res_c:
                     dis(f"parse:{c['which']}", c, res_c, m)
+        elif k == "stream":
+            if "made" not in r or "text" not in r:
+                stats["explicit_refusals"] += 1
+                continue
+            exp = expected_round(c, r["made"])
+            res = r["result"]
+            res_c = {"exc": res["exc"]} if isinstance(res, dict) else res
+            repres = representable(dict(c), r["made"])
+            bad = None
+            if repres and (isinstance(res, dict) or upper_recs(res) != exp):
+                bad = ("stream", res_c)
+            elif repres and ("loaded" not in r or upper_recs(r["loaded"]) != exp):
+                bad = ("load", r.get("loaded", r.get("err")))
+            if bad:
+                nvio += 1
+                rep.violation(f"stream:{c['fmt']}:{'compressed' if c['suffix'] else 'plain'}:{bad[0]}",
+                              dict(case=small(c), expected_by_spec=exp, observed_impl=bad[1], model_output=None,
+                                   broken="records written to a (compressed) file do not come back through "
+                                          "parser(iter_splitlines(path, chunk_size)) / load_*_seqs"))
+                continue
+            if isinstance(res, list) and len(res) >= 1 and r["n_used"] < len(r["text"]):
+                nontrivial.add(json.dumps([c["fmt"], c["suffix"], r["n_used"], c["recs"], c["w"]]))
+            if (i, "stream") in model:
+                m = from_val_recs(model[(i, "stream")])
+                if m is not None and m != res_c:
+                    dis(f"stream:{c['fmt']}", c, res_c, m)
+        elif k == "big":
+            if not r.get("equal"):
+                nvio += 1
+                rep.violation(f"big:{c['fmt']}:{c['suffix']}", dict(case=small(c), expected_by_spec="2 sequences of "
+                              f"{c['nchar'] // 2} residues come back unchanged", observed_impl=r, model_output=None,
+                              broken="large compressed file (more than one default chunk on disk) does not round-trip"))
+            else:
+                nontrivial.add(json.dumps([c["fmt"], c["suffix"], c["nchar"]]))
         elif k in ("split", "iter"):
             res = r["result"]
             if k == "iter" and only_nl(c["text"]):
@@ -748,6 +984,8 @@ def run(tier: str, seed: int) -> int:
                                broken="alternative parsers of the format give different records / labels not verbatim on "
                                       "well-formed text (which: 0 strict, 1 non-strict, 2 bytes, 3 gde strict, 4 gde non-strict)"))
 
+    matrix, never = coverage_matrix(cases, impl)
+
     samples = []
     for c, r in list(zip(cases, impl))[:400]:
         if c["kind"] == "round" and c["block"] == "random" and "loaded" in r and len(samples) < 2:
@@ -762,7 +1000,8 @@ def run(tier: str, seed: int) -> int:
         rule="one evaluation = one case (write+load of a record list in one format/width/suffix; one parser on one text; one "
              "chunk size on one text); non-trivial = round case whose loaded records contain a sequence longer than the block "
              "width, parse case yielding >= 1 record, iter case with >= 2 lines and chunk size < len(text)",
-        samples=samples, input_distribution=dict(cases=len(cases), model_cases=len(mc), by_kind=dist, **stats),
+        samples=samples, input_distribution=dict(cases=len(cases), model_cases=len(mc), by_kind=dist, matrix=matrix,
+                                                 never_produced=never, **stats),
         partial=PARTIAL, exhaustive=False, translator_tie=f"bytes-parser split variant {variant}", model_impl_disagreements=len(disagreements), spec_violations=nvio,
     )
     if os.environ.get("C06_DEBUG"):
@@ -804,6 +1043,14 @@ def replay(path: str) -> int:
 
         rr = _R()
         bad = check_round(rr, c, r, dict(explicit_refusals=0, outside_spec=0)) if "made" in r else False
+    elif c["kind"] == "stream":
+        exp = expected_round(c, r["made"]) if "made" in r else None
+        print("oracle:", exp)
+        res = r.get("result")
+        bad = exp is not None and (isinstance(res, dict) or upper_recs(res) != exp or "loaded" not in r
+                                   or upper_recs(r["loaded"]) != exp)
+    elif c["kind"] == "big":
+        bad = not r.get("equal")
     elif c["kind"] == "iter":
         exp = c["text"].splitlines()
         print("oracle:", exp)
